@@ -13,6 +13,7 @@ LOCAL NL == INSTANCE CelNumLit
 LOCAL DU == INSTANCE CelDuration
 LOCAL TM == INSTANCE CelTime
 LOCAL ZZ == INSTANCE BigInt
+LOCAL DBX == INSTANCE Dbl
 LOCAL NM64 == INSTANCE Num64
 
 Rec == ndJsonDeserialize(IOEnv.TRACE)
@@ -45,6 +46,12 @@ Expected(r) ==
     [] r.op \in {"tslaw1", "tslaw2"} ->                                                          \* t + d - d == t, (t + d) - t == d
          LET s == TM!PlusDur(r.a, r.b, 1) IN
          IF s.k = "v" /\ ~s.dev THEN R(VBool(TRUE)) ELSE (IF s.dev THEN D(s) ELSE s)
+    [] r.op = "lit" -> NL!LitExpected(r.a.cp)
+    [] r.op = "toint" -> NL!ToIntFn(r.a)
+    [] r.op = "touint" -> NL!ToUintFn(r.a)
+    [] r.op = "todbl" -> NL!ToDoubleFn(r.a)
+    [] r.op \in {"intrt", "uintrt", "strrt"} -> R(VBool(TRUE))                   \* inverse conversion after string() / bytes()
+    [] r.op = "dblrt" -> IF DBX!IsNaN(r.a.b) THEN R(VBool(FALSE)) ELSE R(VBool(TRUE))
     [] r.op = "sizeadd" ->       \* size is additive over + (strings: pinned for ASCII text)
          LET sa == BF!Size(r.a) sb == BF!Size(r.b) IN
          IF sa.dev \/ sb.dev THEN D(R(VBool(TRUE))) ELSE R(VBool(TRUE))
@@ -59,15 +66,39 @@ CmpMatches(r) ==
 \* string(timestamp): any RFC 3339 spelling that denotes the same instant at the same offset
 TsStrMatches(r) == \/ ~TM!InRange(r.a.n)
                    \/ (r.out.k = "v" /\ r.out.v.t = "str" /\ TM!Denotes(r.out.v.cp, r.a))
+\* numeric literals: ints/uints exactly, doubles correctly rounded, out-of-range is a compile error
+LitMatches(r) ==
+  LET x == NL!LitExpected(r.a.cp)
+      f == NL!FloatTextVsDouble(r.a.cp, IF r.out.k = "v" /\ r.out.v.t = "dbl" THEN r.out.v.b ELSE << >>) IN
+  IF x.dev THEN TRUE
+  ELSE IF x.k = "e" THEN r.out.k = "compile_err"
+  ELSE IF x.v.t # "dbl" THEN r.out.k = "v" /\ Same(x.v, r.out.v)
+  ELSE IF f.overflow THEN r.out.k = "compile_err"
+  ELSE r.out.k = "v" /\ r.out.v.t = "dbl" /\ f.matches
+\* double(text)
+StrDblMatches(r) ==
+  LET f == NL!FloatTextVsDouble(r.a.cp, IF r.out.k = "v" /\ r.out.v.t = "dbl" THEN r.out.v.b ELSE << >>)
+      p == NL!ParseDecimal(r.a.cp) IN
+  IF f.ok THEN (f.overflow \/ (r.out.k = "v" /\ r.out.v.t = "dbl" /\ f.matches))
+  ELSE IF p.ok THEN r.out.k = "v" /\ r.out.v.t = "dbl" /\ (p.plus \/ DBX!WithinUlp(p.n.m, 0, [i \in 1..4 |-> IF i = 1 THEN r.out.v.b[1] % 32768 ELSE r.out.v.b[i]]))
+  ELSE TRUE                                                           \* other texts (inf, nan, ...): value or error
+\* double(int / uint): the nearest double, or either neighbour
+IntDblMatches(r) ==
+  r.out.k = "v" /\ r.out.v.t = "dbl" /\ DBX!IsFinite(r.out.v.b) /\ (DBX!Neg(r.out.v.b) = (r.a.n.s < 0) \/ r.a.n.s = 0)
+  /\ DBX!WithinUlp(r.a.n.m, 0, [i \in 1..4 |-> IF i = 1 THEN r.out.v.b[1] % 32768 ELSE r.out.v.b[i]])
 Matches(r) ==
-  IF r.out.k \notin {"v", "e", "cmp"} THEN FALSE                     \* panic / timeout
+  IF r.op = "lit" /\ r.out.k \in {"v", "e", "compile_err"} THEN LitMatches(r)
+  ELSE IF r.out.k \notin {"v", "e", "cmp"} THEN FALSE                     \* panic / timeout
   ELSE IF r.op = "hcmp" THEN CmpMatches(r)
+  ELSE IF r.op = "dblstr" THEN r.out.k = "v" /\ r.out.v.t = "str" /\ NL!DblTextDenotes(r.out.v.cp, r.a.b)
+  ELSE IF r.op = "strdbl" THEN StrDblMatches(r)
+  ELSE IF r.op = "todbl" /\ r.a.t \in {"int", "uint"} THEN IntDblMatches(r)
   ELSE IF r.op = "tsstr" THEN TsStrMatches(r)
   ELSE LET x == Expected(r) IN
        \/ x.dev
        \/ (x.k = "v" /\ r.out.k = "v" /\ Same(x.v, r.out.v))
        \/ (x.k = "e" /\ r.out.k = "e" /\ r.out.c \in x.cs)
-IsDev(r) == r.op \notin {"hcmp", "tsstr"} /\ Expected(r).dev
+IsDev(r) == r.op \notin {"hcmp", "tsstr", "dblstr", "strdbl"} /\ Expected(r).dev
 
 Init == l = 1 /\ bad = << >> /\ ndev = 0
 Next == /\ l <= Len(Rec)
